@@ -26,6 +26,15 @@ def case_fn(c):
         fails = oracle.check_read_only(c["model"], c["ops"], seed=c.get("seed", 0), dict_vars=c.get("dict_vars", False))
     elif kind == "inputs":
         fails = oracle.check_inputs(c["model"], c["inputs"], c["vec"], solver=c.get("solver", "euler"), T=c.get("T", 1.0), dt=c.get("dt", 0.05))
+    elif kind == "inputs_seq":
+        # an EARLIER call with other input values in the same process (fresh template objects each time, caches kept): the later
+        # call must be driven by its own arrays
+        import numpy as _np
+        pre = {k: (10.0 * _np.asarray(v, dtype=float)[::-1] + 5.0).tolist() for k, v in c["inputs"].items()}
+        oracle.check_inputs(c["model"], pre, c["vec"], solver=c.get("solver", "euler"), T=c.get("T", 1.0), dt=c.get("dt", 0.05))
+        fails = oracle.check_inputs(c["model"], c["inputs"], c["vec"], solver=c.get("solver", "euler"), T=c.get("T", 1.0), dt=c.get("dt", 0.05))
+        for f in fails:
+            f["clause"] = "after an earlier run with other input values: " + f["clause"]
     elif kind == "population":
         fails = oracle.check_population(c["ps"], T=c.get("T", 0.5), dt=c.get("dt", 0.05), solver=c.get("solver", "euler"))
     elif kind == "jacobian":
@@ -39,6 +48,16 @@ def case_fn(c):
         fails = oracle.check_dde_field(c["model"], c["solver"], seed=c.get("seed", 0), vectorize=c.get("vec", False))
     elif kind == "dde_run":
         fails = oracle.check_dde_run(c["model"], c["solver"], T=c.get("T", 2.0), dts=c.get("dts", 0.05))
+    elif kind == "expr_eval_seq":
+        # several expressions evaluated one after the other in ONE process: a later one must not inherit anything from an earlier one
+        fails = []
+        for j, (tree, values, style) in enumerate(c["items"]):
+            fl = oracle.check_expr_eval(tree, values, style=style)
+            if fl:
+                for f in fl:
+                    f["clause"] = f"expression #{j} of a sequence evaluated in one process: " + f["clause"]
+                fails = fl
+                break
     elif kind == "expr_eval":
         fails = oracle.check_expr_eval(c["tree"], c["values"], style=c.get("style", 0))
     elif kind == "outputs":
